@@ -3,6 +3,10 @@ import json, sys
 sys.path.insert(0, "/verif/py")
 
 CLAIMS = {
+ "C01": ("Theorems over an ARBITRARY tree (any finite map of files/dirs/symlinks, i.e. every damage pattern at once) and an arbitrary hash function: a successful read_hash / read / streamed read finished by check (for every list of buffer sizes) / checked copy, hard link, reflink delivers bytes that carry the digest of the requested (resp. the looked-up entry's) address and mutates nothing; with collision-freeness on the two strings the bytes equal the stored ones (props/C01.v, closed under the global context). Tie to /repo: random programs that store data, damage content files (bit flip, truncation, extension, emptying, swap, deletion, symlink substitution) and retrieve through all checked entry points on three flavours, compared step by step and tree by tree with the extracted model; direct oracle: hashlib digest of every delivered byte string / destination file equals the address.",
+         "proof (arbitrary-state soundness lemmas over step programs) + differential correspondence", "7/C01"),
+ "C18": ("Theorems over an arbitrary tree and destination state: a successful (checked or unchecked) copy leaves exactly the stored bytes at the destination and returns their length, a successful hard link needs a fresh destination and links the stored node, a missing key gives NotFound and missing content an I/O error with the tree untouched, and a checked extraction that fails verification leaves the whole tree (hence the destination) exactly as it was (props/C18.v, closed). Tie to /repo: extraction programs over pristine and damaged content, fresh and existing destinations, three flavours; oracle on the real destination file.",
+         "proof + differential correspondence", "7/C18"),
  "C05": ("Theorem find_refines_map: for every history of index inserts/removals (the library's own step programs: mkdir -p, O_CREAT|O_APPEND open, one append) from any tree with a well-shaped index area, every key's lookup equals the abstract map 'last write wins, removal clears', for an arbitrary hash function (so colliding keys sharing a bucket are inside the theorem); plus frame conditions of one insert (props/C05.v, closed). The records' codec round trip is a hypothesis here (wf_rec), validated by vm_compute on examples and discharged by C11's codec theorems as they land. Tie to /repo: exhaustive short histories and random long ones (index::insert, write, remove, mixed sync/async) on three flavours, lookups after every step via find/metadata/read/list.",
          "proof (induction over histories, refinement to a map) + differential correspondence", "7/C05"),
  "C06": ("Theorems over arbitrary bucket bytes (all damage at once): entries are decided per line, damage to one line changes only that line's contribution, a destroyed newline fuses exactly two records, an appended record is effective after any tail without a pending CR, nothing is fabricated (props/C06.v, closed under the global context). Tie to /repo: differential run of the extracted model against the sync/async-std/tokio binaries on damaged buckets (every cut length of a record, bit flips, garbage/invalid-UTF-8/CR lines, fused and duplicated fragments), lookups through both API families and the listing.",
